@@ -406,6 +406,25 @@ fn special_programs() -> Vec<Program> {
             b::print(PrintKind::Reg),
         ],
     });
+    // a procedure and a DATA label that share their name: the data label used before and after the definition of
+    // the procedure, the procedure called before and after the uses (and a macro of that name as well)
+    v.push(Program {
+        data: vec![b::dw(Some("tot"), 5), b::db(Some("cnt"), 2)],
+        code: vec![
+            b::proc("first", vec![b::bin(BinOp::Add, b::lab16("tot"), b::imm(1))]),
+            b::proc("tot", vec![Item::Ins(Instr::Un(UnOp::Inc, Opnd::R16(R_DX))), b::bin(BinOp::Add, b::r8("bl"), b::lab8("cnt"))]),
+            b::proc("cnt", vec![b::bin(BinOp::Add, b::lab16("tot"), b::r16("dx"))]),
+            b::label("start"),
+            b::call("first"),
+            b::bin(BinOp::Add, b::lab16("tot"), b::r16("dx")),
+            b::mov(b::r16("ax"), b::lab16("tot")),
+            b::call("tot"),
+            b::call("cnt"),
+            b::mov(b::r16("cx"), b::lab16("tot")),
+            b::mov(b::r16("si"), Opnd::Offset("cnt".into())),
+            b::print(PrintKind::Reg),
+        ],
+    });
     // label before a procedure, jumped over / into with a way out
     v.push(Program {
         data: vec![],
